@@ -329,11 +329,16 @@ func (g *Gen) Next(step int) Op {
 		p := w.parked[r.Pick(len(w.parked))]
 		return Op{K: "ExecParked", C: p.C, ID: p.ID}
 	}
+	if bs := g.batches(); len(bs) > 0 && r.Chance(4) { // a pending batch is left to time out (cancel-batch path: its transfers return to the pool)
+		if b := bs[r.Pick(len(bs))]; g.liveChain(b.C) {
+			return Op{K: "ObserveJump", C: b.C, X: 1}
+		}
+	}
 	weights := []struct {
 		k string
 		w int
 	}{
-		{"SendToExternal", 14}, {"Cancel", 7}, {"IncreaseFee", 4}, {"RequestBatch", 6}, {"BatchExecuted", 5}, {"ObserveJump", 2},
+		{"SendToExternal", 14}, {"Cancel", 7}, {"IncreaseFee", 4}, {"RequestBatch", 9}, {"BatchExecuted", 5}, {"ObserveJump", 4},
 		{"BridgeCallMsg", 6}, {"BridgeCallResult", 6}, {"BridgeCallIn", 5},
 		{"ConvertCoin", 8}, {"ConvertERC20", 7}, {"ConvertDenom", 4}, {"Toggle", 1},
 		{"PreCrossChain", 7}, {"PreBridgeCall", 6}, {"PreCancel", 3}, {"PreIncreaseFee", 3},
@@ -461,7 +466,13 @@ func (g *Gen) Next(step int) Op {
 			if !g.liveChain(c) {
 				continue
 			}
-			return Op{K: k, C: c, X: int64(r.Pick(3))}
+			x := int64(r.Pick(3))
+			if bs := g.batches(); len(bs) > 0 && r.Chance(50) { // a pending batch: let it time out (the cancel-batch path)
+				if b := bs[r.Pick(len(bs))]; g.liveChain(b.C) {
+					c, x = b.C, 1
+				}
+			}
+			return Op{K: k, C: c, X: x}
 		case "BridgeCallMsg":
 			a, _ = g.holder(false)
 			rf := a
@@ -592,7 +603,11 @@ func (g *Gen) Next(step int) Op {
 			if nat {
 				bal = g.bankBal(a, 0, 0)
 			}
-			return Op{K: k, C: c, T: t, A: a, X: g.amt(bal, 4000), Y: int64(r.Pick(21)), Flag: nat}
+			fee := int64(r.Pick(21))
+			if r.Chance(30) { // the precompile accepts a bridge fee of exactly 0; such a transfer is only ever batched next to a paying one
+				fee = 0
+			}
+			return Op{K: k, C: c, T: t, A: a, X: g.amt(bal, 4000), Y: fee, Flag: nat}
 		case "PreCrossChainIbc":
 			a, t = g.holder(true)
 			nat := r.Chance(30)
